@@ -84,6 +84,7 @@ func main() {
 	n := flag.Int("n", 0, "number of histories (0 = tier default)")
 	model := flag.String("model", "", "path of the extracted model binary (empty = skip the T leg)")
 	prop := flag.String("prop", "", "report only this property's oracle failures / mismatches (empty = all)")
+	corpus := flag.String("corpus", "", "directory of minimised past failures (*.json with .input), run first")
 	flag.Parse()
 	if *out == "" {
 		fmt.Fprintln(os.Stderr, "need -out")
@@ -113,7 +114,10 @@ func main() {
 		hs = []history{rp.Input}
 	} else {
 		// corpus first
-		files, _ := filepath.Glob(filepath.Join(filepath.Dir(*out), "..", "..", "corpus", "mux", "*.json"))
+		var files []string
+		if *corpus != "" {
+			files, _ = filepath.Glob(filepath.Join(*corpus, "*.json"))
+		}
 		sort.Strings(files)
 		for _, f := range files {
 			raw, err := os.ReadFile(f)
